@@ -335,7 +335,7 @@ def model_term(d) -> str:
         return "SZ 0%Z"
     if d.get("kind") == "setitem_grown":   # element 1 brings the inferred element 2 (o1.anc = [o2]) unless it is there already
         inf = [2] if (d["x"] == 1 and 2 not in d["init"]) else []
-        return f"setitem_grown_out ({d['i']})%Z {d['x']} {nl(inf)} {nl(d['init'])}"
+        return f"setitem_then_infer_out ({d['i']})%Z {d['x']} {nl(inf)} {nl(d['init'])}"
     if d.get("kind") == "ctor_alias":
         return f"ctor_copy_out {nl(d['init'])} {d['x']}"
     return f"model_out {kterm(d['scn'])} [{'; '.join(op_term(o) for o in d['ops'])}] {nl(d['init'])}"
@@ -415,7 +415,7 @@ def run(tier: str, seed: int, replay=None) -> int:
     rep.trusted.append("source pins pins/onto.json (pin set pins/sets/onto.json): the normalised source of the 57 methods the hand models Onto/Closure.v and Onto/Container.v mirror is compared on every run; an edit reopens the correspondence obligation")
     rep.assume = [
         "the field is written by its owner with fresh arguments (lists, sets, generators) or with itself for assignment / += / |=; "
-        "the written field is one whose inferences go to OTHER fields (inverse, super-property); K_setitem_grown (item assignment / insert with a negative index on a transitive or symmetric field, C16-i) is outside the fragment, with a _refuted theorem",
+        "the generated histories write fields whose inferences go to OTHER fields (inverse, super-property); item assignment on a transitive field (inference writes back into the written list; C16-i, fixed) is replayed from its witnesses against the model setitem_then_infer",
         "reading a managed field with == is not modelled; K_container_eq (C16-h) is replayed from its witness",
         "elements of SET-valued fields are pairwise different under == (Python's own set semantics go by ==, the symbol graph by identity); twins are generated for list fields only",
         "item assignment with an integer index or a step-1 slice whose value is a list or a generator",
